@@ -437,7 +437,9 @@ static size_t build_cases(kase* ks, size_t maxk, unsigned long long seed, int ti
             default: p.ldm = (int)(rnd() & 1); p.mm = 3 + (int)(rnd() % 4); break;
             }
             if (p.level > 5 && n > 200000) p.level = 3;
-            if (entry == E_COMPRESS) { int lv[] = { 1, 3, -1, 5, 9, 13 }; p.level = lv[rnd() % 6]; if (p.level > 5 && n > 140000) p.level = 2; }
+            if (entry == E_COMPRESS) {   /* ZSTD_compressCCtx takes a level only */
+                int lv[] = { 1, 3, -1, 5, 9, 13 }; int l = lv[rnd() % 6]; if (l > 5 && n > 140000) l = 2;
+                p = mkP(l, 0, -1, 0, 0, 0, 0, 0, 0, 0); }
             PUSH(kind, is, n, entry, p);
         }
     }
